@@ -1,6 +1,8 @@
 import FrappyDrive.DTypes
 import FrappyModel.Datatypes.Datainfo
 import FrappyModel.Datatypes.Compat
+import FrappyModel.Datatypes.Variants
+import FrappyModel.Datatypes.CompatUsers
 import FrappyModel.Datatypes.CopyHeap
 import FrappyModel.Datatypes.Import
 import FrappyModel.Spec.C03
@@ -10,13 +12,21 @@ Line-protocol glue for C03.  Annotated trees (`DInfo`) are the trees of `DTypes.
 `"unit"`, `"fmt"` on `double` / `scaled` and `"name"` on `enum`.
 
   {"k":"rebuild","di":T,"impl":{"built":b,"datainfo":J|null,"datainfo2":J|null,"tree2":T|null,"probes":[{"o":O,"d":O},..]}}
-      → {"model":{"datainfo":J|err,"tree2":T|err,"datainfo2":J|err},"judge":[..]}
+      → {"model":{"datainfo":J|err,"tree2":T|err,"datainfo2":J|err,"classes":S},"judge":[..]}
+      (S = the classes of the rebuilt / copied tree: "leaf"|"text"|"status"|{"array":S}|{"tuple":[S..]}|{"limits":S}|{"struct":[[k,S]..]})
   {"k":"get","json":J}                          → {"model": T | "bad"}                       (malformed datainfo stream)
   {"k":"copy","di":T,"impl":{…as rebuild…,"shared":[kinds],"before":J,"after":J,"mprobes":[{"o":O,"d":O},..]}}
       → {"model":{"tree2":T|err,"shared":[..]},"judge":[..]}
   {"k":"compat","a":T,"b":T,"impl":{"verdict":"pass"|"bad"|{"other":c},"witnesses":[{"v":V,"acc":b},..]}}
       → {"model":"pass"|"bad","nested":b,"wf":b,"judge":[..]}
+      (trees of a pair may carry "cls":"text" on a string node, "cls":"limits" | "status" on a tuple node: `CType`)
   {"k":"probe","di":T,"mode":"wire"|"py","cand":V}  → {"model":O}       (model outcome of import_value / validate)
+  {"k":"proxy","params":[{"name":s,"export":b,"readonly":b,"dt":T,"remote":null|{"dt":T,"readonly":b}},..],
+               "commands":[{"name":s,"dt":C,"remote":null|C},..]}         (C = {"arg":T|null,"res":T|null})
+      → {"model":{"params":[[name,[warning,..]],..],"commands":[[name,[warning,..]],..]}}   (ProxyModule._check_descriptive_data)
+  {"k":"cmdcompat","a":C,"b":C,"impl":{"verdict":…,"wa":[{"v":V,"acc":b},..],"wr":[..]}} → {"model":"pass"|"bad","nested":b,"judge":[..]}
+  {"k":"writable","value":T,"target":T} → {"model":"ok"|"ConfigError"|"ProgrammingError"}   (Writable.__init__; the
+      datatypes are those declared: the check sees their copies, `copyC`)
 -/
 namespace Frappy.Drive.C03
 open Lean Frappy.Drive Frappy Frappy.Datatypes Frappy.Spec.C03
@@ -68,6 +78,60 @@ partial def dinfoToJson : DInfo Float → Json
   | .struct ms opt c => Json.mkObj [("t", "struct"),
       ("members", jarr (ms.map (fun (k, v) => jarr [.str k, dinfoToJson v]))),
       ("optional", jstrs opt), ("client", .bool c)]
+
+/-- a tree with class marks: `"cls":"text"` on a string node (`min` 0, not UTF-8), `"cls":"limits"` on a tuple node with
+two identical members, `"cls":"status"` on a tuple node (enum, unlimited string) -/
+partial def ctypeOfJson (j : Json) : R (CType Float) := do
+  let t ← fldStr j "t"
+  let cls : String := match j.getObjVal? "cls" with
+    | .ok (.str c) => c
+    | _ => ""
+  match t, cls with
+  | "string", "text" =>
+    if (← fldNat j "min") != 0 || (← fldBool j "utf8") then throw "TextType has minchars 0 and is not UTF-8"
+    return .text (← fldNat j "max")
+  | "tuple", "limits" =>
+    match ← fldArr j "elems" with
+    | [x, y] =>
+      if x.compress != y.compress then throw "LimitsType has two identical members"
+      return .limits (← ctypeOfJson x)
+    | _ => throw "LimitsType has two members"
+  | "tuple", "status" =>
+    match ← fldArr j "elems" with
+    | [x, y] =>
+      match ← dtypeOfJson x, ← dtypeOfJson y with
+      | .enum ms, .string 0 mx false =>
+        if mx != unlimitedChars then throw "StatusType has an unlimited string"
+        return .status ms
+      | _, _ => throw "StatusType is (enum, string)"
+    | _ => throw "StatusType has two members"
+  | "array", "" => return .array (← ctypeOfJson (← fld j "elem")) (← fldNat j "min") (← fldNat j "max")
+  | "tuple", "" => return .tuple (← (← fldArr j "elems").mapM ctypeOfJson)
+  | "struct", "" =>
+    let ms ← (← fldArr j "members").mapM (fun kv => do
+      match ← arr kv with
+      | [k, v] => return ((← k.getStr?), (← ctypeOfJson v))
+      | _ => throw "bad struct member")
+    return .struct ms (← fldStrs j "optional") (← fldBool j "client")
+  | _, "" => return .leaf (← dtypeOfJson j)
+  | _, c => throw s!"class mark {c} on a node of kind {t}"
+
+partial def skelToJson : Skel → Json
+  | .leaf => .str "leaf"
+  | .text => .str "text"
+  | .status => .str "status"
+  | .array e => Json.mkObj [("array", skelToJson e)]
+  | .tuple es => Json.mkObj [("tuple", jarr (es.map skelToJson))]
+  | .limits m => Json.mkObj [("limits", skelToJson m)]
+  | .struct ms => Json.mkObj [("struct", jarr (ms.map (fun (k, v) => jarr [.str k, skelToJson v])))]
+
+def cmdOfJson (j : Json) : R (CmdType Float) := do
+  let opt (key : String) : R (Option (CType Float)) := do
+    match j.getObjVal? key with
+    | .ok .null => pure none
+    | .ok t => some <$> ctypeOfJson t
+    | .error _ => pure none
+  return { argument := ← opt "arg", result := ← opt "res" }
 
 def errToJson : Err → Json
   | .other c => Json.mkObj [("other", .str c)]
@@ -137,9 +201,10 @@ def handle (j : Json) : R Json := do
     let ex2 : Except Err (JVal Float) := match rebuilt with
       | .ok t' => exportDatatype consts t'
       | .error e => .error e
+    let c ← ctypeOfJson (← fld j "di")
     return Json.mkObj [
       ("model", Json.mkObj [("datainfo", exToJson jvalToJson ex), ("tree2", exToJson dinfoToJson rebuilt),
-        ("datainfo2", exToJson jvalToJson ex2)]),
+        ("datainfo2", exToJson jvalToJson ex2), ("classes", skelToJson (rebuildC c).skel)]),
       ("wf", .bool t.erase.wfB),
       ("judge", jstrs (judgeDerived (← derivedOfJson impl)))]
   | "get" =>
@@ -154,22 +219,29 @@ def handle (j : Json) : R Json := do
       before := (← optJVal impl "before").getD .null
       after := (← optJVal impl "after").getD .null
       probes := ← probesOfJson impl "mprobes" }
+    let ct ← ctypeOfJson (← fld j "di")
     return Json.mkObj [
-      ("model", Json.mkObj [("tree2", exToJson dinfoToJson c), ("shared", jstrs (Heap.sharedKinds consts t))]),
+      ("model", Json.mkObj [("tree2", exToJson dinfoToJson c), ("shared", jstrs (Heap.sharedKinds consts t)),
+        ("classes", skelToJson (copyC ct).skel)]),
       ("wf", .bool t.erase.wfB),
       ("judge", jstrs (judgeDerived (← derivedOfJson impl) ++ judgeMutation m))]
   | "compat" =>
-    let a ← dtypeOfJson (← fld j "a")
-    let b ← dtypeOfJson (← fld j "b")
+    let a ← ctypeOfJson (← fld j "a")
+    let b ← ctypeOfJson (← fld j "b")
     let impl ← fld j "impl"
     let verdict ← verdictOfJson (← fld impl "verdict")
     let ws ← (← fldArr impl "witnesses").mapM (fun w => do
       return ({ value := ← pvalOfJson (← fld w "v"), accepted := ← fldBool w "acc" } : Witness Float))
-    let m : Json := match compatible a b with
+    let m : Json := match compatibleC a b with
       | .ok _ => .str "pass"
       | .error e => errToJson e
-    return Json.mkObj [("model", m), ("nested", .bool (nestedB a b)), ("wf", .bool (a.wfB && b.wfB)),
-      ("judge", jstrs (judgeCompat a b verdict ws))]
+    -- the model of the second type's `validate` on every witness (correspondence of `cvalidate`)
+    let macc := ws.map (fun w => match cvalidate b w.value none with
+      | .ok _ => true
+      | .error _ => false)
+    return Json.mkObj [("model", m), ("nested", .bool (nestedCB a b)), ("wf", .bool (a.wfB && b.wfB)),
+      ("macc", Json.arr (macc.map Json.bool).toArray), ("inset", Json.arr (ws.map (fun w => Json.bool (inSetCB a w.value))).toArray),
+      ("judge", jstrs (judgeCompatC a b verdict ws))]
   | "probe" =>
     let t ← dinfoOfJson (← fld j "di")
     let mode ← fldStr j "mode"
@@ -179,6 +251,45 @@ def handle (j : Json) : R Json := do
     else
       let cand ← pvalOfJson (← fld j "cand")
       return Json.mkObj [("model", outcomeToJson (outcomeOfRes (validate t.erase cand none)))]
+  | "proxy" =>
+    let out ← (← fldArr j "params").mapM (fun p => do
+      let name ← fldStr p "name"
+      let dt ← ctypeOfJson (← fld p "dt")
+      let remote : Option (RemoteParam Float) ← match p.getObjVal? "remote" with
+        | .ok .null => pure none
+        | .ok r => do pure (some { datatype := ← ctypeOfJson (← fld r "dt"), readonly := ← fldBool r "readonly" })
+        | .error _ => pure none
+      let ws := proxyParam name (← fldBool p "export") (← fldBool p "readonly") dt remote
+      return jarr [.str name, jstrs (ws.map ProxyWarning.name)])
+    let cmds : List Json := match j.getObjVal? "commands" with
+      | .ok (.arr xs) => xs.toList
+      | _ => []
+    let cout ← cmds.mapM (fun c => do
+      let name ← fldStr c "name"
+      let dt ← cmdOfJson (← fld c "dt")
+      let remote : Option (CmdType Float) ← match c.getObjVal? "remote" with
+        | .ok .null => pure none
+        | .ok r => do pure (some (← cmdOfJson r))
+        | .error _ => pure none
+      return jarr [.str name, jstrs ((proxyCommand dt remote).map ProxyCmdWarning.name)])
+    return Json.mkObj [("model", Json.mkObj [("params", jarr out), ("commands", jarr cout)])]
+  | "cmdcompat" =>
+    let a ← cmdOfJson (← fld j "a")
+    let b ← cmdOfJson (← fld j "b")
+    let impl ← fld j "impl"
+    let verdict ← verdictOfJson (← fld impl "verdict")
+    let wits (key : String) : R (List (Witness Float)) := do
+      (← fldArr impl key).mapM (fun w => do
+        return ({ value := ← pvalOfJson (← fld w "v"), accepted := ← fldBool w "acc" } : Witness Float))
+    let m : Json := match compatibleCmd a b with
+      | .ok _ => .str "pass"
+      | .error e => errToJson e
+    return Json.mkObj [("model", m), ("nested", .bool (decide (NestedCmd a b))),
+      ("judge", jstrs (judgeCmd a b verdict (← wits "wa") (← wits "wr")))]
+  | "writable" =>
+    let v ← ctypeOfJson (← fld j "value")
+    let t ← ctypeOfJson (← fld j "target")
+    return Json.mkObj [("model", .str (writableCheck (copyC v) (copyC t)).name)]
   | _ => throw s!"C03: unknown verb {k}"
 
 end Frappy.Drive.C03
